@@ -36,8 +36,9 @@ def _ray2d_status(
         lower = np.array([zmin, xmin])
         upper = np.array([z[min(i + 1, nz - 1)], x[min(j + 1, nx - 1)]])
 
-        isrc = np.searchsorted(z, zsrc, side="right") - 1
-        jsrc = np.searchsorted(x, xsrc, side="right") - 1
+        # A source on the far boundary belongs to the last cell
+        isrc = min(np.searchsorted(z, zsrc, side="right") - 1, nz - 2)
+        jsrc = min(np.searchsorted(x, xsrc, side="right") - 1, nx - 2)
 
     count = 1
     pcur = np.array([zend, xend], dtype=np.float64)
